@@ -468,6 +468,18 @@ def build_project(seed):
         forms.add("sibling_without_locals_hides_or_imports_a_host_name")
         units[f"aa_first{seed % 1000}"] = set()
         units[f"aa_second{seed % 1000}"] = set()
+    if rng.random() < 0.5:
+        # an array that reaches an internal procedure through a module that only re-exports it, USEd nowhere but in that internal
+        # procedure; the using module is read (and sorts) before the re-exporting one
+        S = seed % 1000
+        forms.add("array_via_reexporting_module_used_only_in_internal_procedure")
+        files[f"aa_user{S}.f90"] = [f"module aa_user{S}", "implicit none", "contains", f"subroutine outer_fac{S}()", f"call inner_fac{S}()", "contains",
+                                    f"subroutine inner_fac{S}()", f"use zz_facade{S}", "integer :: k", "k = ftable(3) + ftable(k)", f"end subroutine inner_fac{S}",
+                                    f"end subroutine outer_fac{S}", f"end module aa_user{S}"]
+        files[f"zz_facade{S}.f90"] = [f"module zz_facade{S}", f"use zz_tables{S}", "implicit none", f"end module zz_facade{S}"]
+        files[f"zz_tables{S}.f90"] = [f"module zz_tables{S}", "implicit none", "integer :: ftable(10) = 0", f"end module zz_tables{S}"]
+        units[f"outer_fac{S}"] = {f"inner_fac{S}"}
+        units[f"inner_fac{S}"] = set()
     if prog_lines:
         files[f"prog{seed % 1000}.f90"] = prog_lines
     if ext_lines:
@@ -542,7 +554,7 @@ def case(seed):
     try:
         root = os.path.join(base, "src")
         os.makedirs(root)
-        lay = layout.Layout(seed, plain=(seed % 3 == 0), cont_p=0.35, comment_p=0.1, semi_p=0.15)
+        lay = layout.Layout(seed, plain=(seed % 3 == 0), cont_p=0.35, comment_p=0.1, semi_p=0.15, lit_break_p=0.4)
         texts = {}
         for name, lines in files.items():
             stmts = []
